@@ -11,7 +11,7 @@ use crate::common::*;
 use numbat::Context;
 use serde_json::{Value as J, json};
 
-const POWERS: [&str; 7] = ["2", "3", "(-1)", "(1/2)", "(1/3)", "(1/5)", "(2/3)"];
+const POWERS: [&str; 8] = ["2", "3", "(-1)", "(1/2)", "(1/3)", "(1/5)", "(2/3)", "0"];
 pub const ARGS: [&str; 10] = ["2", "3 m", "true", "5 s", "0", "4 m^2", "6 m/s", "7 kg", "8 / s", "9 m^15"];
 
 #[derive(Clone)]
@@ -363,7 +363,7 @@ pub fn check(rep: &mut Report) {
     rep.set("verdicts", json!(counts));
     rep.set("calls_compared", json!(calls * 2));
     rep.set("argument_alphabet", json!(&ARGS[..nargs]));
-    rep.rule = "every unannotated body with <= 2 operator nodes over leaves {x, 2} / {x, y, 2} (unary: -, ^e for e in {2,3,-1,1/2,1/3,1/5,2/3}, sqrt, sqr, abs, cbrt; binary: * / + hypot2 mean head; conditionals `if l > r then a else b`; plus `==` / `!=` conditions for every one-node conditional and for two-node ones with the nested term in a branch), plus every binary operator applied to two one-node operands (thorough: full unary set, conditionals over them, and every unary of a two-node body); for each accepted body: printed signature + original body re-declared in a second clone, signatures compared, and every argument tuple from the value alphabet (quick 6: Scalar, Length, Bool, Time, the polymorphic 0, Length² — the first 4 for two-parameter bodies; thorough 10: + Velocity, Mass, 1/Time, Length^15) called on both; non-trivial = accepted bodies (each compared on all call tuples)".into();
+    rep.rule = "every unannotated body with <= 2 operator nodes over leaves {x, 2} / {x, y, 2} (unary: -, ^e for e in {2,3,-1,1/2,1/3,1/5,2/3,0}, sqrt, sqr, abs, cbrt; binary: * / + hypot2 mean head; conditionals `if l > r then a else b`; plus `==` / `!=` conditions for every one-node conditional and for two-node ones with the nested term in a branch), plus every binary operator applied to two one-node operands (thorough: full unary set, conditionals over them, and every unary of a two-node body); for each accepted body: printed signature + original body re-declared in a second clone, signatures compared, and every argument tuple from the value alphabet (quick 6: Scalar, Length, Bool, Time, the polymorphic 0, Length² — the first 4 for two-parameter bodies; thorough 10: + Velocity, Mass, 1/Time, Length^15) called on both; non-trivial = accepted bodies (each compared on all call tuples)".into();
     rep.assumptions = vec![
         "the printed signature is the text before ` = ` of Statement::pretty_print of the accepted definition".into(),
         "the session loads only core::functions, core::lists, math::statistics, math::geometry and units::si; both definitions use the same function name in two copies of it that evolve in lockstep (refreshed every 32 bodies), so results and error texts are compared literally; exponent spelling (A² vs A^2) is not compared".into(),
